@@ -631,9 +631,23 @@ func (v *VC) modularCall(callee *ssa.Function, ct *Contract, args []string, bind
 	bindResults(post, sig, res)
 	v.applySets(ct, post, heap)
 	for _, e := range ct.Ensures {
-		v.assume(g, v.evalSpec(e, post))
+		v.assumeCalleeEnsures(g, e, post)
 	}
 	return res
+}
+
+// assumeCalleeEnsures: a postcondition of a callee that talks about the callee's own locals cannot
+// be stated at the call site; it is simply not assumed there (fewer assumptions, still sound).
+func (v *VC) assumeCalleeEnsures(g string, e Clause, post *SpecEnv) {
+	t, err := v.evalClause(e, post)
+	if err != nil {
+		if strings.Contains(err.Error(), "unknown identifier") {
+			return
+		}
+		v.specErrors = append(v.specErrors, err.Error())
+		return
+	}
+	v.assume(g, t)
 }
 
 func (v *VC) assumeEnsures(callee *ssa.Function, ct *Contract, args, res []string, g string, heap *Heap) {
@@ -644,7 +658,7 @@ func (v *VC) assumeEnsures(callee *ssa.Function, ct *Contract, args, res []strin
 	post.old = v.callEnv(callee, callee.Signature, ct, args, heap.clone())
 	bindResults(post, callee.Signature, res)
 	for _, e := range ct.Ensures {
-		v.assume(g, v.evalSpec(e, post))
+		v.assumeCalleeEnsures(g, e, post)
 	}
 }
 
